@@ -45,6 +45,19 @@ impl Overlay {
         Root(self.inner.prev_root)
     }
 
+    /// The generation of the committed state this overlay was prepared on, if it has no parent
+    /// overlay.
+    pub(super) fn base_generation(&self) -> Option<u64> {
+        self.inner.base_generation
+    }
+
+    /// Record the generation of the committed state this overlay was prepared on.
+    pub(super) fn with_base_generation(mut self, base_generation: Option<u64>) -> Self {
+        // UNWRAP: called right after creation, before the overlay is shared.
+        Arc::get_mut(&mut self.inner).unwrap().base_generation = base_generation;
+        self
+    }
+
     /// Check whether the parent of this overlay matches the provided marker.
     /// If the provided marker is `None`, then this checks that this overlay doesn't have a parent.
     pub(super) fn parent_matches_marker(&self, marker: Option<&OverlayMarker>) -> bool {
@@ -87,6 +100,7 @@ struct OverlayInner {
     // ordered by recency.
     ancestor_data: Vec<Weak<Data>>,
     rollback_delta: Option<crate::rollback::Delta>,
+    base_generation: Option<u64>,
 }
 
 /// A marker indicating the overlay uniquely, until dropped. Used to enforce commit order.
@@ -414,6 +428,7 @@ impl LiveOverlay {
                 seqn: new_seqn,
                 ancestor_data,
                 rollback_delta,
+                base_generation: None,
             }),
         }
     }
